@@ -141,6 +141,13 @@ func ReadFile(r io.Reader) (File, []string, error) {
 				f.GoPackage, _ = strconv.Unquote(cons.Value)
 			}
 			f.Consts = append(f.Consts, cons)
+		case tokenKindCloseCurly:
+			// the closing brace of the definition just read
+			continue
+		default:
+			// nothing else can stand between definitions; skipping it silently would also
+			// detach a pending [opcode], [flags], readonly or doc comment from its definition
+			return f, warnings, readError(tk, "unexpected %v between definitions", tk.kind)
 		}
 		nextCommentLines = []string{}
 		nextRecordOpCode = 0
